@@ -61,5 +61,12 @@ def bodyR0 : Bytes := [4, 0, 1, 8, 0, 3, 2, 7, 0, 0, 0, 0xAB, 0xCD, 0, 1, 1]
 def bodyR2 : Bytes := [4, 0, 1, 8, 0, 3, 2, 7, 2, 0, 0, 0xAB, 0xCD, 0, 1, 1]
 /-- `bodyA` followed by a stray octet -/
 def bodyT : Bytes := bodyA ++ [0x55]
+/-- a signature that carries `bodyR0` / `bodyR2` as an Embedded Signature subpacket (type 32) in its
+UNHASHED area -/
+def bodyE0 : Bytes := [4, 0, 1, 8, 0, 0, 0, 18, 17, 32] ++ bodyR0 ++ [0xAB, 0xCD, 0, 1, 1]
+def bodyE2 : Bytes := [4, 0, 1, 8, 0, 0, 0, 18, 17, 32] ++ bodyR2 ++ [0xAB, 0xCD, 0, 1, 1]
+/-- … and in its hashed area, with the embedded signature's MPI bit count 1 (canonical) / 8 -/
+def bodyH1 : Bytes := [4, 0, 1, 8, 0, 15, 14, 32] ++ bodyA ++ [0, 0, 0xAB, 0xCD, 0, 1, 1]
+def bodyH8 : Bytes := [4, 0, 1, 8, 0, 15, 14, 32] ++ bodyC ++ [0, 0, 0xAB, 0xCD, 0, 1, 1]
 
 end Rpgp.Sound.Toy
